@@ -33,10 +33,16 @@ def main(argv=None):
         return 2
     from . import engine
 
-    prop = importlib.import_module(f"pmc.props.{a.id}")
-    if a.replay:
-        return engine.replay(prop, a.replay)
-    return engine.run(prop, a.tier, seed)
+    try:
+        prop = importlib.import_module(f"pmc.props.{a.id}")
+        if a.replay:
+            return engine.replay(prop, a.replay)
+        return engine.run(prop, a.tier, seed)
+    except Exception as e:  # a crash of the harness itself is never a verdict
+        import traceback
+
+        seams.say(f"HARNESS-ERROR property={a.id}: {e!r}\n{traceback.format_exc()[-3000:]}")
+        return 2
 
 
 if __name__ == "__main__":
